@@ -228,10 +228,16 @@ def charge_pattern(seq):
 def random_sequences(rng, count, maxlen, minlen=1):
     """Seeded IDP-like, polyampholyte, polyelectrolyte, low-complexity, very short sequences."""
     out = []
-    kinds = ["idp", "ampholyte", "electrolyte+", "electrolyte-", "lowcomplex", "short", "uniform", "neutral-rich", "blocky"]
+    kinds = ["idp", "ampholyte", "electrolyte+", "electrolyte-", "lowcomplex", "short", "uniform", "neutral-rich", "blocky",
+             "runs", "special-length", "repeat"]
+    special = [n for n in (16, 17, 18, 19, 24, 25, 31, 32, 33, 50, 51, 63, 64, 65, 97, 100, 101, 127, 128, 129, 200, 255, 256, 257, 300, 500)
+               if minlen <= n <= maxlen]
     for i in range(count):
         kind = kinds[i % len(kinds)]
         n = rng.randint(minlen, maxlen)
+        if kind == "special-length" and special:
+            n = rng.choice(special)
+            kind = rng.choice(["idp", "ampholyte", "uniform", "neutral-rich"])
         if kind == "idp":
             w = dict(zip(AA, [6, 1, 6, 9, 2, 8, 2, 2, 8, 4, 1, 4, 9, 6, 5, 10, 6, 4, 1, 2]))
         elif kind == "ampholyte":
@@ -250,6 +256,17 @@ def random_sequences(rng, count, maxlen, minlen=1):
             w = {"G": 10, "S": 10, "Q": 8, "N": 6, "P": 4, "K": 1, "E": 1, "Y": 3, "T": 3}
         elif kind == "blocky":
             w = None
+        elif kind == "runs":
+            # long runs of one residue (25 or more where the length allows) between ordinary stretches
+            s = ""
+            while len(s) < n:
+                s += rng.choice(AA) * rng.randint(25, 40) if rng.random() < 0.5 else "".join(rng.choices(AA, k=rng.randint(3, 12)))
+            out.append(s[:n])
+            continue
+        elif kind == "repeat":
+            unit = "".join(rng.choices("KEDRGSPQNTY", k=rng.randint(2, 7)))
+            out.append((unit * (n // len(unit) + 1))[:n])
+            continue
         else:
             w = {l: 1 for l in AA}
         if w is None:
